@@ -265,15 +265,30 @@ def _histories(tier, seed, classes, modes, extra_calls, n_random, max_len, pairs
                 yield cls, removal, (shift(h, -3) if k % 5 == 0 else h)
 
 
-def run_history(cls, removal, history, on_call=None):
+def probe(G):
+    """read-only queries issued BETWEEN the calls of a history: they must not change anything, and whatever they
+    memoise must be invalidated by the next mutator (a stale cache shows up in the checks made at the end)"""
+    for f in (lambda: G.temporal_snapshots_ids(), lambda: G.interactions_per_snapshots(), lambda: list(G.stream_interactions()),
+              lambda: G.interactions(), lambda: G.nodes(), lambda: G.number_of_interactions(), lambda: G.degree(),
+              lambda: G.interactions_per_snapshots(T_LO - 7), lambda: G.has_interaction(1, 2, T_LO - 7), lambda: G.number_of_nodes(t=1),
+              lambda: G.avg_number_of_nodes(), lambda: G.size()):
+        try:
+            f()
+        except Exception:
+            pass
+
+
+def run_history(cls, removal, history, on_call=None, probing=True):
     """(G, M, outcomes): the graph and model after the history; outcomes[i] = (outcome, expected)"""
     G = new_graph(cls, removal)
     M = Model(cls == 'DynDiGraph', removal)
     outs = []
-    for c in history:
+    for i, c in enumerate(history):
         if on_call:
             on_call(G, M, c)
         outs.append(apply_call(G, M, c))
+        if probing and i + 1 < len(history):
+            probe(G)
     return G, M, outs
 
 
